@@ -266,13 +266,18 @@ def run(tier, seed):
         'shuffled_grid': lambda p, seed=None, sd=sd: grid.GridSearchDesigner.from_problem(p, sd),
         'quasi_random': lambda p, seed=None, sd=sd: quasi_random.QuasiRandomDesigner.from_problem(p, seed=sd),
         'eagle': lambda p, seed=None, sd=sd: eagle_strategy.EagleStrategyDesigner(p, seed=sd),
+        'cmaes': lambda p, seed=None, sd=sd: cmaes.CMAESDesigner(p, pop_size=4, seed=sd),
     }
+    fprob, _fm = spaces.gen_space(r, vz, float_only=True, allow_log=False)
     for name, f in pf.items():
+      if name == 'cmaes' and quick and si % 2:
+        continue
       n = 8 if name != 'eagle' else r.choice([8, 20])
       steps = [r.randrange(1, 4) for _ in range(n)]
       oseed = r.randrange(100)
+      prob_used = fprob if name == 'cmaes' else prob
       try:
-        live = run_policy(f, prob, steps, set(), oseed)
+        live = run_policy(f, prob_used, steps, set(), oseed)
       except Exception as e:  # pylint: disable=broad-except
         rep.count('refused_policy_%s_%s' % (name, type(e).__name__))
         continue
@@ -280,15 +285,15 @@ def run(tier, seed):
         rep.case({'policy': name, 'steps': steps, 'restarts': sorted(rs)}, True)
         rep.count('policy_' + name)
         try:
-          got = run_policy(f, prob, steps, rs, oseed)
+          got = run_policy(f, prob_used, steps, rs, oseed)
         except Exception as e:  # pylint: disable=broad-except
-          viol('%s policy: the restarted run raised %s' % (name, type(e).__name__), {'space': repr(prob.search_space)[:400], 'steps': steps,
+          viol('%s policy: the restarted run raised %s' % (name, type(e).__name__), {'space': repr(prob_used.search_space)[:400], 'steps': steps,
                                                                                     'restarts': sorted(rs), 'error': repr(e)[:300]})
           break
         if got != live:
           first = [i for i in range(n) if got[i] != live[i]][0]
           viol('%s hosted in PartiallySerializableDesignerPolicy: a new policy object restored from study metadata suggests differently' % name,
-               {'space': repr(prob.search_space)[:400], 'steps': steps, 'restarts': sorted(rs), 'seed': sd, 'first_differing_step': first,
+               {'space': repr(prob_used.search_space)[:400], 'steps': steps, 'restarts': sorted(rs), 'seed': sd, 'first_differing_step': first,
                 'live': live[first], 'restarted': got[first]})
           break
 
